@@ -92,19 +92,9 @@ def powU64 (p : UInt64) : Nat → UInt64
   | 0 => 1
   | n + 1 => p * powU64 p n
 
-def fastPow (p : UInt64) (n : Nat) : UInt64 := Id.run do
-  let mut r : UInt64 := 1
-  let mut b := p
-  let mut k := n
-  for _ in [0:64] do
-    if k % 2 = 1 then r := r * b
-    b := b * b
-    k := k / 2
-  return r
-
 /-- FNV-1a over `encRec r` without materialising the padding -/
 def fnvRec (h : UInt64) (r : Rec) : UInt64 :=
-  fnvBytes (fnvBytes h (encHeader r)) r.payload * fastPow fnvPrime (padLen r)
+  fnvBytes (fnvBytes h (encHeader r)) r.payload * powU64 fnvPrime (padLen r)
 
 def fnvFile (f : SegFile) : UInt64 :=
   fnvBytes (f.recs.foldl fnvRec fnvInit) (tornBytes f.torn)
